@@ -136,7 +136,7 @@ DoCb ==
     /\ IF op.name \in {"clone", "iter_clone"}
        THEN CloneStep(IF op.name = "clone" THEN op.srcs[1][op.k + 1]
                       ELSE SetMin(SeqRange(op.srcs[1]) \ DOMAIN op.cmap), NewId)
-       ELSE Cb([k |-> op.k, idx |-> op.k, args |-> CbArgs(op.name, op.srcs, op.n, op.k), acc |-> op.acc])
+       ELSE Cb([k |-> op.k, idx |-> op.k, args |-> CbArgs(op.name, op.srcs, op.n, op.k), acc |-> op.acc, pv |-> -1])
     /\ UNCHANGED <<hist, nexth>>
 
 \* the harness closure lets go of every by-value argument and returns a fresh element
@@ -165,7 +165,7 @@ DoRet ==
           /\ LET items == IF op.name = "iter_clone" THEN [i \in DOMAIN op.srcs[1] |-> op.cmap[op.srcs[1][i]]]
                           ELSE op.out
                  okind == CASE op.name = "iter_clone" -> "iter"
-                            [] op.name \in {"clone", "map", "zip"} -> op.kinds[1]
+                            [] op.name \in {"clone", "map", "zip", "zipx"} -> op.kinds[1]
                             [] OTHER -> op.okind
                  outs == IF op.name \in Folds THEN <<>> ELSE OutRecs(<<MkVal(okind, items, 0)>>)
              IN /\ RetCb([outs |-> outs, vals |-> <<>>, obs |-> <<>>, res |-> op.acc, err |-> FALSE])
